@@ -66,7 +66,9 @@ def subdir(name: str) -> Path:
 def driver_env(order: int | None = None, extra: dict | None = None, hooks=True) -> dict:
     env = dict(os.environ)
     env['PYTHONPATH'] = f'{REPO}:{HARNESS}'
-    env['PYTHONHASHSEED'] = '0'
+    # reproducible, but not always the same: the string-hash seed (iteration order of sets of lexical items) follows the
+    # order seed of the job
+    env['PYTHONHASHSEED'] = '0' if order is None else str(1000 + int(order))
     env['PYTHONDONTWRITEBYTECODE'] = '1'
     if hooks:
         env[GUARD] = '1'
